@@ -54,14 +54,12 @@ func (u AmountUnit) String() string {
 type Amount int64
 
 // round converts a floating point number, which may or may not be representable
-// as an integer, to the Amount integer type by rounding to the nearest integer.
-// This is performed by adding or subtracting 0.5 depending on the sign, and
-// relying on integer truncation to round the value to the nearest Amount.
+// as an integer, to the Amount integer type by rounding to the nearest integer,
+// with halfway cases rounded away from zero.  math.Round is exact; adding or
+// subtracting 0.5 and truncating is not, because the addition is rounded itself
+// (0.49999999999999994 + 0.5 is 1.0).
 func round(f float64) Amount {
-	if f < 0 {
-		return Amount(f - 0.5)
-	}
-	return Amount(f + 0.5)
+	return Amount(math.Round(f))
 }
 
 // NewAmount creates an Amount from a floating point value representing
